@@ -4,6 +4,7 @@ import (
 	"fmt"
 	"io"
 	"net/http"
+	"sort"
 
 	"github.com/DemoHn/Zn/pkg/common"
 	"github.com/DemoHn/Zn/pkg/exec"
@@ -54,10 +55,21 @@ func buildIncomingRequestBody(req *http.Request) (runtime.Element, error) {
 	return value.NewString(string(body)), nil
 }
 
+func sortedKeys(m map[string][]string) []string {
+	keys := make([]string, 0, len(m))
+	for k := range m {
+		keys = append(keys, k)
+	}
+	sort.Strings(keys)
+	return keys
+}
+
 func buildIncomingRequest(r *http.Request) (runtime.Element, error) {
+	// http.Header and url.Values are Go maps: add their keys in sorted order, so that the
+	// same request always yields the same dictionaries
 	headerDict := value.NewEmptyHashMap()
-	for k, v := range r.Header {
-		if len(v) > 0 {
+	for _, k := range sortedKeys(r.Header) {
+		if v := r.Header[k]; len(v) > 0 {
 			headerDict.AppendKVPair(value.KVPair{
 				Key:   k,
 				Value: value.NewString(v[0]),
@@ -66,8 +78,9 @@ func buildIncomingRequest(r *http.Request) (runtime.Element, error) {
 	}
 
 	qsDict := value.NewEmptyHashMap()
-	for k, v := range r.URL.Query() {
-		if len(v) > 0 {
+	query := r.URL.Query()
+	for _, k := range sortedKeys(query) {
+		if v := query[k]; len(v) > 0 {
 			qsDict.AppendKVPair(value.KVPair{
 				Key:   k,
 				Value: value.NewString(v[0]),
